@@ -34,7 +34,7 @@ func runC04(c *rt.C) {
 		return
 	}
 	if c.Index >= 6+len(slMicros) && c.Index < 6+len(slMicros)+4 {
-		nodeListLifecycle(c, mem)
+		nodeListLifecycle(c, mem, (c.Index-(6+len(slMicros)))/2 == 1)
 		return
 	}
 	if c.Index == 6+len(slMicros)+12 {
